@@ -913,7 +913,9 @@ class ExcludeRegionState(object):  # pylint: disable=too-many-instance-attribute
             self.pendingCommands[gcode] = pendingArgs
 
             for label, value in self.gcodeParser.parse(cmd).parameterItems():
-                pendingArgs[label] = value
+                # The free-text remainder (label '') repeats the flags already seen; it is no parameter
+                if (label):
+                    pendingArgs[label] = value
         elif (mode == EXCLUDE_EXCEPT_FIRST):
             # Capture the first instance of the command encountered
             if (not (gcode in self.pendingCommands)):
